@@ -364,6 +364,25 @@ class Book:
                      "nsub": og["nsub"] if not rng_sub else 0, "structs": None, "ok": og["good"] and not rng_sub, "maybe": not og["good"]}
         return True
 
+    def dataset_from_sequence(self):
+        """`bufr_create_dataset_from_sequence`: a free-form list of elements with values becomes a dataset of one subset"""
+        rng = self.rng
+        d = self.free_slot(self.D)
+        if d is None:
+            return False
+        name = rng.choice(["cur", "loc", "syn"])
+        # the application's own descriptors (`bufr_create_descriptor(tables, ...)`) point into the tables they were
+        # made from, local entries included, and the dataset keeps copies of them: the tables must outlive it.
+        # The workload uses the immortal table sets of the process, so that no order of frees can break that rule.
+        targ, refs = "@" + name, set()
+        B, D = self.P[name]
+        descs = [templates.pick_element(rng, B) for _ in range(rng.choice([1, 2, 3, 5]))]
+        ed = rng.choice([3, 4])
+        self.emit("own.dseq %d %s %d %s" % (d, targ, ed, " ".join("%06d" % x for x in descs)))
+        self.D[d] = {"stamp": self.tick(), "refs": set(refs), "name": name, "descs": descs, "ed": ed, "nsub": 0,
+                     "structs": None, "ok": False, "maybe": True}
+        return True
+
     def decode_damaged(self):
         """a message whose bytes were damaged after writing: read may fail, decode may return NULL or a flagged dataset"""
         rng = self.rng
@@ -476,7 +495,7 @@ def random_workload(rng, P, nops=None):
     nops = nops or rng.choice([6, 10, 16, 24])
     acts = [(bk.tables_recipe, 3), (bk.tables_extra, 1), (bk.template_new, 4), (bk.template_copy, 1), (bk.template_extend, 2), (bk.template_load, 1),
             (bk.dataset_new, 4), (bk.subset_new, 6), (bk.subset_touch, 2), (bk.dataset_merge, 3), (bk.dataset_mismatch_merge, 1),
-            (bk.encode, 4), (bk.write_read, 3), (bk.decode, 4), (bk.dumpload, 1), (bk.free_one, 5),
+            (bk.encode, 4), (bk.write_read, 3), (bk.decode, 4), (bk.dataset_from_sequence, 2), (bk.dumpload, 1), (bk.free_one, 5),
             (bk.tables_list, 1), (bk.store_extract, 1), (bk.extract_nothing, 1)]
     bag = [a for a, w in acts for _ in range(w)]
     # a spine so that the deep ops are reachable
